@@ -386,7 +386,14 @@ pub fn run_plist(args: &Args) {
     crate::run_cases("c20plist", args, move |i| {
         let mut rng = Rng::for_case(seed, "c20plist", i);
         let distinct = !rng.chance(1, 8);
-        let v = gen_pv(&mut rng, 3, distinct);
+        // mostly composite at the top (a lone leaf one time in five)
+        let mut v = gen_pv(&mut rng, 3, distinct);
+        for _ in 0..4 {
+            if matches!(v, PV::Dict(_) | PV::Arr(_)) || rng.chance(1, 5) {
+                break;
+            }
+            v = gen_pv(&mut rng, 3, distinct);
+        }
         let mut texts: Vec<String> = vec![];
         texts.push(print_pv(&v, &mut rng, StyleKnobs { mode: 0, permute: false }));
         texts.push(print_pv(&v, &mut rng, StyleKnobs { mode: 1, permute: distinct }));
@@ -1157,12 +1164,16 @@ fn skip_export_fragment(lib: &str) -> Option<String> {
 }
 
 fn e2e_sources() -> Vec<PathBuf> {
+    // directed runs / replay of a finding on a hand-made source: C20_SOURCES=/a/x.glyphs:/b/y.ufo
+    if let Ok(list) = std::env::var("C20_SOURCES") {
+        return list.split(':').filter(|s| !s.is_empty()).map(PathBuf::from).collect();
+    }
     let t = Path::new("/repo/resources/testdata");
     let curated = [
         "glyphs3/WghtVar.glyphs", "FixedPitch.ufo", "glyphs2/WghtVar_Anchors.glyphs", "glyphs3/Unicode-UnquotedDecSequence.glyphs", "Static-Regular.ufo",
-        "glyphs2/Unicode-QuotedHexSequence.glyphs", "glyphs3/kerning_ltr_and_rtl.glyphs", "MetaTable.ufo", "glyphs3/Component.glyphs", "glyphs2/Fea_Feature.glyphs",
-        "designspace_from_glyphs/WghtVar_NoExport-Regular.ufo", "glyphs3/LocalizedNames.glyphs", "glyphs3/infinity.glyphs", "OpenCorners.ufo", "glyphs2/Mono.glyphs",
-        "glyphs3/number_value.glyphs",
+        "glyphs3/LocalizedNames.glyphs", "glyphs3/kerning_ltr_and_rtl.glyphs", "MetaTable.ufo", "glyphs2/Mono.glyphs", "glyphs3/infinity.glyphs",
+        "designspace_from_glyphs/WghtVar_NoExport-Regular.ufo", "glyphs3/WghtVar_3master_CustomOrigin.glyphs", "glyphs2/MVAR.glyphs", "OpenCorners.ufo", "glyphs3/SmartComponents.glyphs",
+        "glyphs3/COLRv1-gradient.glyphs",
     ];
     let mut v: Vec<PathBuf> = curated.iter().map(|c| t.join(c)).filter(|p| p.exists()).collect();
     let mut rest: Vec<PathBuf> = vec![];
@@ -1195,7 +1206,22 @@ fn routes_glyphs(src: &Path, tmp: &Path, rng: &mut Rng, tags: &mut Vec<String>) 
         tags.push("unreadable".into());
         return rs;
     };
-    rs.push(Route { name: "memory".into(), built: lib_build_input(fontc::Input::from_glyphs(text.clone())) });
+    // documented difference: feature code that `include(…)`s a file is resolved against the directory of the
+    // source file; a text in memory has no directory (glyphs2fontir `source_path: None`), so such sources are
+    // not presented through the memory route, and the files beside them are copied along with the text.
+    let has_include = text.contains("include(") || text.contains("include (");
+    if has_include {
+        tags.push("has-include:memory-route-excluded".into());
+        if let Some(parent) = src.parent() {
+            for e in std::fs::read_dir(parent).into_iter().flatten().flatten() {
+                if e.path().extension().and_then(|x| x.to_str()) == Some("fea") {
+                    let _ = std::fs::copy(e.path(), tmp.join(e.file_name()));
+                }
+            }
+        }
+    } else {
+        rs.push(Route { name: "memory".into(), built: lib_build_input(fontc::Input::from_glyphs(text.clone())) });
+    }
     // the same text under another file name in another directory (what the remaining routes are compared with
     // if the source refers to files beside it)
     let stem = src.file_stem().unwrap().to_string_lossy().to_string();
@@ -1223,7 +1249,7 @@ fn routes_glyphs(src: &Path, tmp: &Path, rng: &mut Rng, tags: &mut Vec<String>) 
                 let p = tmp.join(format!("{stem}-{name}.glyphs"));
                 std::fs::write(&p, &t2).unwrap();
                 rs.push(Route { name: name.into(), built: lib_build_path(&p) });
-                if mode == 1 {
+                if mode == 1 && !has_include {
                     rs.push(Route { name: format!("{name}-memory"), built: lib_build_input(fontc::Input::from_glyphs(t2)) });
                 }
             }
@@ -1317,6 +1343,87 @@ pub fn run_e2e(args: &Args) {
             S::k1("kind", S::atom(if is_ufo { "ufo" } else { "glyphs" })),
             S::kv("notes", tags.iter().map(|t| S::str(t))),
             S::kv("routes", routes),
+        ]
+    });
+}
+
+// ------------------------------------------------------------------------------------------------
+// c20unicode: the `unicode` entry of a glyph in many layouts of the same tokens, through the real typed
+// reader (glyphs_reader::Font::load_from_string); the focused exhibit of finding F-C20-1
+// ------------------------------------------------------------------------------------------------
+
+fn unicode_template(v3: bool) -> (String, String) {
+    let t = Path::new("/repo/resources/testdata");
+    let (file, line) = if v3 { ("glyphs3/Unicode-UnquotedDecSequence.glyphs", "\t\tunicode = (1619,1764);") } else { ("glyphs2/Unicode-UnquotedHex.glyphs", "\t\tunicode = 1234;") };
+    (std::fs::read_to_string(t.join(file)).expect("template"), line.to_string())
+}
+
+fn load_unicode(text: &str) -> S {
+    let t = text.to_string();
+    let r = std::panic::catch_unwind(move || {
+        glyphs_reader::Font::load_from_string(&t).map(|f| f.glyphs.get("name").map(|g| g.unicode.iter().copied().collect::<Vec<u32>>()))
+    });
+    match r {
+        Ok(Ok(Some(cps))) => S::kv("ok", cps.iter().map(|c| S::usize(*c as usize))),
+        Ok(Ok(None)) => S::atom("noglyph"),
+        Ok(Err(_)) => S::atom("err"),
+        Err(_) => S::atom("panic"),
+    }
+}
+
+pub fn run_unicode(args: &Args) {
+    let seed = args.seed;
+    let (t3, l3) = unicode_template(true);
+    let (t2, l2) = unicode_template(false);
+    crate::run_cases("c20unicode", args, move |i| {
+        let mut rng = Rng::for_case(seed, "c20unicode", i);
+        let v3 = rng.chance(1, 2);
+        let radix = if v3 { 10 } else { 16 };
+        let n = 1 + rng.below(3);
+        let mut cps: Vec<u32> = vec![];
+        while cps.len() < n {
+            let c = *rng.pick(&[0x41u32, 0x20, 0x653, 0x6E4, 0x2044, 0x200D, 0x1F4A9, 0x10FFFF, 9, 0xABCD, 0xFACE]);
+            if !cps.contains(&c) {
+                cps.push(c);
+            }
+        }
+        let word = |c: u32| if v3 { format!("{c}") } else { format!("{c:04X}") };
+        let words: Vec<String> = cps.iter().map(|c| word(*c)).collect();
+        let list = words.join(",");
+        // the layout Glyphs.app writes
+        let canonical = if n == 1 { format!("\t\tunicode = {};", words[0]) } else if v3 { format!("\t\tunicode = ({list});") } else { format!("\t\tunicode = \"{list}\";") };
+        let ws = |rng: &mut Rng| rng.pick(&["", " ", "  ", "\t"]).to_string();
+        let mut variants: Vec<(&str, String)> = vec![("canonical", canonical)];
+        let (a, b, c, d) = (ws(&mut rng), ws(&mut rng), ws(&mut rng), ws(&mut rng));
+        if n == 1 {
+            variants.push(("spaces", format!("{a}unicode{b}={c}{}{d};", words[0])));
+            variants.push(("quoted-value", format!("\t\tunicode = \"{}\";", words[0])));
+            variants.push(("quoted-key", format!("\t\t\"unicode\" = {};", words[0])));
+            variants.push(("quoted-both", format!("\"unicode\"=\"{}\";", words[0])));
+            variants.push(("parens", format!("\t\tunicode = ({});", words[0])));
+            variants.push(("own-lines", format!("unicode\n=\n{}\n;", words[0])));
+            variants.push(("shared-line", format!("unicode = {}; note = x;", words[0])));
+        } else {
+            variants.push(("spaces-outside", format!("{a}unicode{b}={c}({list});{d}")));
+            variants.push(("list-form", format!("\t\tunicode = ({list});")));
+            variants.push(("quoted-string-form", format!("\t\tunicode = \"{list}\";")));
+            variants.push(("space-after-comma", format!("\t\tunicode = ({});", words.join(", "))));
+            variants.push(("space-inside-parens", format!("\t\tunicode = ( {list} );")));
+            variants.push(("multi-line", format!("\t\tunicode = (\n{}\n);", words.join(",\n"))));
+            variants.push(("quoted-key", format!("\t\t\"unicode\" = ({list});")));
+            variants.push(("quoted-items", format!("\t\tunicode = ({});", words.iter().map(|w| format!("\"{w}\"")).collect::<Vec<_>>().join(","))));
+            variants.push(("shared-line", format!("unicode = ({list}); note = x;")));
+            variants.push(("crlf", format!("\t\tunicode = ({list});\r")));
+        }
+        let (tmpl, line) = if v3 { (&t3, &l3) } else { (&t2, &l2) };
+        let impls: Vec<S> = variants.iter().map(|(_, e)| load_unicode(&tmpl.replacen(line.as_str(), e, 1))).collect();
+        let mut expect: Vec<u32> = cps.clone();
+        expect.sort();
+        vec![
+            S::k1("radix", S::usize(radix)),
+            S::kv("codepoints", expect.iter().map(|c| S::usize(*c as usize))),
+            S::kv("variants", variants.iter().map(|(n, e)| S::list([S::atom(*n), S::str(e)]))),
+            S::kv("impl", impls),
         ]
     });
 }
